@@ -66,6 +66,33 @@ class SmGen(WorldGen):
         self.lines[-1] = "on A x" + self.lines[-1]
         return w
 
+    def make_mvtb(self, specs, vparent=None):
+        """several honest VTBs contained in ONE new VBK block on `vparent` (harness op `mvtb`).
+        specs = [(endorsed, bparent | "prev", last known btc | "prev")]; "prev" = block of proof of the previous one"""
+        vparent = vparent or self.vtip
+        vid = "v%d" % self.nv
+        self.nv += 1
+        self.vbk[vid] = dict(parent=vparent, height=self.vbk[vparent]["height"] + 1)
+        ws, bids, words = [], [], []
+        for (e, bp, last) in specs:
+            wid = "w%d" % self.nw
+            self.nw += 1
+            bid = "b%d" % self.nb
+            self.nb += 1
+            rbp = bids[-1] if bp == "prev" else bp
+            rlast = bids[-1] if last == "prev" else last
+            self.btc[bid] = dict(parent=rbp, height=self.btc[rbp]["height"] + 1)
+            self.vtb[wid] = dict(endorsed=e, containing=vid, bop=bid, last=rlast, bctx=self.bpath(rlast, bid))
+            if self.btc[bid]["height"] > self.btc[self.btip]["height"]:
+                self.btip = bid
+            ws.append(wid)
+            bids.append(bid)
+            words += [wid, e, bp, last]
+        self.emit("on A mvtb %s %s" % (vparent, " ".join(words)), " ".join([vid] + bids))
+        if self.vbk[vid]["height"] > self.vbk[self.vtip]["height"]:
+            self.vtip = vid
+        return ws
+
     def ensure_side(self, anc=()):
         """an ALT block that is NOT on the chain `anc` (a child of a0 with an empty body)"""
         if self.side is None or self.side in anc:
@@ -1008,7 +1035,7 @@ def sp_tie(g, tips):
     return len(leaves) >= 3 or sum(1 for v in leaves if g.vbk[v]["height"] == hmax) >= 2
 
 
-def c01_twin_tail(g, sc, r, spf, cands=None, n_cmp=4, shown=None):
+def c01_twin_tail(g, sc, r, spf, cands=None, n_cmp=4, shown=None, order=False):
     """twin A B (fresh instance shown only A's active chain), then the comparisons that must agree; with spf the
     comparisons are guarded by the SP carve-out (evaluated later on the tips the harness reports)"""
     pre = "h%d" % len(sc.gens)
@@ -1029,6 +1056,8 @@ def c01_twin_tail(g, sc, r, spf, cands=None, n_cmp=4, shown=None):
     t0 = tipline()
     both("POP state after the history vs fresh instance shown only the active chain", "obs", "pop", guard=(t0, None))
     both("payouts", "payouttip", guard=(t0, None))
+    if order:
+        both("ORDERED VTB ids of every VBK block (order of re-execution on an SP reorg)", "vtborder", guard=(t0, None))
     # Candidates with a planted invalid payload in their ancestry are compared on every encounter. On a SECOND encounter
     # (A validated the block before: during its history or in an earlier twin round) A answers 1 from the cached
     # FAILED_POP mark while a fresh twin may answer 0 from the keystone short-cut without validating: exactly that
@@ -1060,6 +1089,115 @@ def c01_twin_tail(g, sc, r, spf, cands=None, n_cmp=4, shown=None):
         t2 = tipline()
         both("POP state after comparing with " + c, "obs", "pop", guard=(t2, None))
         both("payouts", "payouttip", guard=(t2, None))
+        if order:
+            both("ORDERED VTB ids of every VBK block after comparing with " + c, "vtborder", guard=(t2, None))
+
+
+def gen_c01_multivtb(ctx, sc, n_hist):
+    """several VTBs contained in ONE VBK block but carried by different ALT forks: vA.. on fork a1, a BTC-dependent run
+    v1, v2(, v3) on chain b1..bn (each one's block of proof is the child of the previous one's, empty BTC context).
+    b is validated, abandoned for a1, compared against again (the loser is unapplied UNDER the still applied winner:
+    non-LIFO removal of VTB ids from the shared VBK block), then a heavier VBK fork branching below that VBK block is
+    delivered and abandoned (the VBK state machine un-/re-executes the block's VTBs in their stored order).
+    Twin rounds compare the POP projection and the ORDERED VTB ids of every VBK block."""
+    r = ctx.rng
+    for _ in range(n_hist):
+        cfg = small_cfg(r)
+        cfg.pop("vbk_settle", None)
+        g = SmGen(r.fork(), cfg)
+        g.no_vtb = True
+        H = SmHistory(g, planted=0, destructive=False)
+        a = "a0"
+        for _ in range(r.below(3)):
+            a = g.build_block(a, n_atv=r.below(2), n_extra=r.below(2))
+        base_b = g.best_known_btc(a)
+        pool = g.vtb_pool(g.alt[a]["kv"]) or [g.vtip]
+        na, nb = r.range(1, 2), r.range(2, 3)
+        specs, owner = [], []
+        # the VTBs of fork a1 (independent of each other: each connects to the BTC block the common ancestry knows)
+        slots = ["A"] * na + ["B"] * nb
+        if r.chance(1, 2):
+            r.shuffle(slots)
+        first_b = True
+        for sl in slots:
+            if sl == "A":
+                specs.append((r.choice(pool), base_b, base_b))
+            elif first_b:
+                specs.append((r.choice(pool), base_b, base_b))
+                first_b = False
+            else:
+                specs.append((r.choice(pool), "prev_b", "prev_b"))
+            owner.append(sl)
+        # "prev" must refer to the previous B VTB: keep the B run contiguous in the tx list when A VTBs are interleaved
+        fixed, lastb = [], None
+        for i, (e, bp, la) in enumerate(specs):
+            if bp == "prev_b":
+                if i > 0 and owner[i - 1] == "B":
+                    fixed.append((e, "prev", "prev"))
+                else:
+                    fixed.append(None)
+            else:
+                fixed.append((e, bp, la))
+        if any(x is None for x in fixed):
+            # fall back to the contiguous layout
+            owner = ["A"] * na + ["B"] * nb
+            fixed = [(r.choice(pool), base_b, base_b) for _ in range(na + 1)] + [(r.choice(pool), "prev", "prev") for _ in range(nb - 1)]
+        ws = g.make_mvtb(fixed)
+        c = g.vtb[ws[0]]["containing"]
+        wa = [w for w, o in zip(ws, owner) if o == "A"]
+        wb = [w for w, o in zip(ws, owner) if o == "B"]
+        a1 = g.build_from(a, wa, [], ())
+        # chain b: the dependent VTBs in order, spread over the blocks; ATVs give it a POP score
+        nblocks = r.range(3, 5)
+        at = sorted(r.below(nblocks) for _ in wb)
+        b, bs = a, []
+        for i in range(nblocks):
+            mine = [w for w, j in zip(wb, at) if j == i]
+            ats = []
+            if i > 0:
+                anc = [x for x in g.ancestry(b) if x != "a0" and g.alt[b]["height"] + 1 - g.alt[x]["height"] <= g.settle()]
+                ats = [g.make_atv(r.choice(anc)) for _ in range(r.range(0, 2))] if anc else []
+            b = g.build_from(b, mine, ats, ())
+            bs.append(b)
+        bl = bs[-1]
+        key = [a, a1] + bs
+        H.show(a1, order="inorder")
+        H.show(bl, order=r.choice(["inorder", "random"]))
+        first = r.choice([a1, bl])
+        H.on("set", first)
+        H.on("set", bl)
+        H.on("set", a1)
+        H.on("cmp", bl)
+        H.on("vtborder")
+        for _ in range(r.below(3)):
+            H.on(r.choice(["set", "cmp"]), r.choice(key))
+        c01_twin_tail(g, sc, r, True, cands=key, n_cmp=1, shown=H.hdr, order=True)
+        # a heavier VBK fork branching below the shared VBK block, delivered by a child of the current chain
+        f = g.vpar(c)
+        need = g.vbk[g.vtip]["height"] - g.vbk[f]["height"] + r.range(1, 2)
+        fork = []
+        for _ in range(need):
+            f = g.mine_vbk(parent=f)
+            fork.append(f)
+        b6 = g.new_alt(bl)
+        g.set_pd(b6, ctx=fork)
+        a2 = g.new_alt(a1)
+        g.set_pd(a2, ctx=fork)
+        key += [b6, a2]
+        H.show(b6, order="inorder")
+        H.show(a2, order="inorder")
+        H.on("set", bl)
+        H.on("set", b6)
+        H.on("vtborder")
+        H.on("set", bl)
+        H.on("vtborder")
+        for rnd in range(2):
+            for _ in range(r.below(3)):
+                H.on(r.choice(["set", "cmp"]), r.choice(key))
+            c01_twin_tail(g, sc, r, True, cands=key, n_cmp=2, shown=H.hdr, order=True)
+        sc.add(g, modelled=False)
+        sc.bump("c01_histories")
+        sc.bump("c01_multi_vtb_one_vbk_block_histories")
 
 
 def gen_c01_vtbfork(ctx, sc, n_hist, steps):
@@ -1296,10 +1434,12 @@ def run_check(ctx, pid):
             if quick:
                 gen_c01(ctx, sc, 60, 36)
                 gen_c01_vtbfork(ctx, sc, 24, 12)
+                gen_c01_multivtb(ctx, sc, 16)
                 gen_corr_honest(ctx, sc, 20, 30)
             else:
                 gen_c01(ctx, sc, 1500, 60, sp_forks=5)
                 gen_c01_vtbfork(ctx, sc, 300, 30)
+                gen_c01_multivtb(ctx, sc, 200)
                 gen_corr_honest(ctx, sc, 300, 50)
     tgen = time.time() - t0
     lines = sc.lines
